@@ -1,6 +1,7 @@
 """Rules over asm(): sizes (C04), legal modes (C13), split-port offsets (C17),
 hand-built instructions, AsmLine sibling agreement, optimizer never edits sizes."""
 import json
+import re
 import os
 
 from astlib import AnchorMissing, expr_text, pat_text, walk, VERIF
@@ -485,3 +486,36 @@ def t_opt_size(facts, res, tier):
                 res.inst(key + ":%d" % n_assign, True, {"lhs": lt, "rhs": rt})
                 if not ok:
                     res.fail("T-OPT-SIZE:linewrite:%s" % rt, facts.where(fn, n), "optimize() overwrites a line with `%s` (neither Dummy nor a clone of an existing line)" % rt)
+
+
+@rule("T-ZP-THRESHOLD", floor=1,
+      text="a constant-address pointer leaves the zero-page memory class exactly when its address does not fit in one byte (address > 0xff): asm() sizes operands from that class, so the boundary decides 2- vs 3-byte encodings")
+def t_zp_threshold(facts, res, tier):
+    fn = facts.fn("compile_var_decl", "CompilerState")
+    found = []
+    for n in walk(fn["body"]):
+        if n.get("k") == "if":
+            ct = expr_text(n["cond"])
+            tt = expr_text(n["then"]).replace(" ", "")
+            if "memory=VariableMemory::" in tt and "Zeropage" not in tt and re.search(r"[<>]=?", ct) and any(x.get("k") == "lit" and x["ty"] == "int" for x in walk(n["cond"])):
+                found.append(n)
+    if not found:
+        raise AnchorMissing("compile_var_decl: the address test that moves a constant pointer out of the zero-page class was not found")
+    for n in found:
+        cmpn = [x for x in walk(n["cond"]) if x.get("k") == "binary" and x["op"] in (">", ">=", "<", "<=") and (x["r"].get("k") == "lit" or x["l"].get("k") == "lit")]
+        key = "T-ZP-THRESHOLD:%s" % expr_text(n["then"]).replace(" ", "")[:40]
+        if not cmpn:
+            res.inst(key)
+            res.fail(key, facts.where(fn, n), "cannot read the address comparison `%s`" % expr_text(n["cond"]))
+            continue
+        c = cmpn[0]
+        if c["r"].get("k") == "lit":
+            op, k = c["op"], c["r"]["v"]
+        else:
+            op, k = {">": "<", "<": ">", ">=": "<=", "<=": ">="}[c["op"]], c["l"]["v"]
+        # smallest address that leaves the zero-page class
+        first_out = k + 1 if op == ">" else (k if op == ">=" else None)
+        res.inst(key, True, {"condition": expr_text(n["cond"]), "first_non_zero_page_address": first_out})
+        if first_out != 0x100:
+            res.fail(key, facts.where(fn, n), "a constant pointer is treated as zero page up to address %s; the 6502 zero page ends at 0xff, so accesses to 0x100..%s are sized 2 bytes but assemble to 3" % (
+                hex(first_out - 1) if first_out else "?", hex(first_out - 1) if first_out else "?"))
